@@ -6,7 +6,7 @@ from vlib.xhair import Ob
 
 M = 'vlib.harness.C04_schema'
 
-STUBS = ['a minimal stand-in for the std module (std::BaseObject, std::Object, std::str, std::int64, std::bool, std::property, '
+STUBS = ['a minimal stand-in for the std module (std::BaseObject, std::Object, std::str, std::int64, std::bool, std::uuid, std::sequence, abstract constraint std::exclusive, std::property, '
          'std::source, std::target, std::link, __schema_version__) created with hand-built commands in stdmode: the real '
          'standard library cannot be loaded without the parser',
          'user DDL is given as hand-built qlast DDL nodes (the nodes the parser would produce) and applied with '
@@ -49,8 +49,9 @@ def obligations_c02(tier):
     T = float(os.environ.get('VERIF_XH_TIMEOUT') or (300 if quick else 1800))
     _, nmig = _nmenu()
     obs = []
-    for ra in range(4):
-        for rb in range(4):
+    nrec = 4 if quick else 6
+    for ra in range(nrec):
+        for rb in range(nrec):
             if quick:
                 obs.append(Ob(id=f'migration.A{ra}.B{rb}.one-sided', module=M, func='migration_reaches_target',
                               params='ka: int, a0: int, kb: int, b0: int', args=f'{ra}, ka, a0, 0, {rb}, kb, b0, 0',
@@ -99,8 +100,9 @@ def obligations_c10(tier):
     T = float(os.environ.get('VERIF_XH_TIMEOUT') or (300 if quick else 1800))
     _, nmig = _nmenu()
     obs = []
-    for r1 in range(4):
-        for r2 in range(4):
+    nrec = 4 if quick else 6
+    for r1 in range(nrec):
+        for r2 in range(nrec):
             if quick:
                 obs.append(Ob(id=f'path.S1_{r1}.S2_{r2}', module=M, func='path_independent', params='c1: int, c2: int',
                               args=f'{r1}, c1, {r2}, c2, {nmig}', pre=[f'0 <= c1 <= {nmig} and 0 <= c2 <= {nmig}', f'c1 == {nmig} or c2 == {nmig}'],
